@@ -921,6 +921,9 @@ def c09(ctx):
     ctx.replay("C09-captures-files", c2, FIELDS["C09"], mode="both")
     pc = ctx.gen_cases("C09P")
     ctx.replay("C09-process", pc, FIELDS["C09"])
+    # amount clauses with more and with fewer matches than they ask for (also none), find and replace, text and file
+    am = ctx.gen_cases("C04")
+    ctx.replay("C09-amounts", [c for c in am if c["id"] >= 300000 or c["id"] % (5 if quick else 2) == 0], FIELDS["C09"], mode="both")
     # inputs beyond the reader's and the memory writer's buffer sizes: returns normally, file = string
     pat = [ord(ch) for ch in "ab c\nxy  z9\n"]
     big = lambda n: [pat[i % len(pat)] for i in range(n)]
